@@ -1,0 +1,351 @@
+//! Verification hooks. Only compiled with `--cfg deadpool_verif`.
+//!
+//! This module provides a thread-local hook registry and thin wrappers
+//! around [`std::sync::Mutex`] and the `std` atomics. Every wrapper calls
+//! the *real* primitive; it merely reports the operation to the installed
+//! [`Hooks`] implementation *before* performing it. When no hooks are
+//! installed on the current thread every wrapper is a plain pass-through.
+#![allow(missing_docs, missing_debug_implementations, unreachable_pub)]
+
+use std::{
+    any::Any,
+    cell::RefCell,
+    fmt,
+    future::Future,
+    ops::{Deref, DerefMut},
+    pin::Pin,
+    rc::Rc,
+    sync::{self, atomic, LockResult, PoisonError, TryLockError, TryLockResult},
+};
+
+/// Kind of shared object a shim wraps.
+#[derive(Clone, Copy, Debug, PartialEq, Eq, Hash)]
+pub enum ObjKind {
+    Mutex,
+    Atomic,
+    Semaphore,
+}
+
+/// Operation about to be performed on a shim object.
+#[derive(Clone, Copy, Debug, PartialEq, Eq, Hash)]
+pub enum Op {
+    MutexLock,
+    AtomicRmw,
+    AtomicLoad,
+    SemTryAcquire,
+    SemAcquirePoll,
+    SemAddPermits,
+    SemForgetPermits,
+    SemClose,
+    SemIsClosed,
+    SemPermitDrop,
+}
+
+/// Closure handed to [`Hooks::spawn_blocking`].
+pub type BlockingFn = Box<dyn FnOnce() + Send + 'static>;
+
+/// Interface implemented by the verification harness.
+pub trait Hooks {
+    /// A new shim object was created; returns its id.
+    fn new_object(&self, kind: ObjKind) -> u64;
+    /// `op` is about to be performed on `obj`.
+    fn point(&self, op: Op, obj: u64);
+    /// `try_lock` on mutex `obj` reported `WouldBlock`. Returns when the
+    /// caller should retry.
+    fn mutex_blocked(&self, obj: u64);
+    /// Mutex `obj` was acquired by the caller.
+    fn mutex_acquired(&self, obj: u64);
+    /// Mutex `obj` was released.
+    fn mutex_released(&self, obj: u64);
+    /// A closure was submitted to `spawn_blocking`. The harness takes
+    /// ownership of it and runs it whenever it likes.
+    fn spawn_blocking(&self, f: BlockingFn);
+}
+
+thread_local! {
+    static HOOKS: RefCell<Option<Rc<dyn Hooks>>> = const { RefCell::new(None) };
+}
+
+/// Installs (or removes) the hooks for the current thread.
+pub fn install(hooks: Option<Rc<dyn Hooks>>) {
+    HOOKS.with(|h| *h.borrow_mut() = hooks);
+}
+
+/// Returns the hooks installed on the current thread.
+pub fn current() -> Option<Rc<dyn Hooks>> {
+    HOOKS.try_with(|h| h.borrow().clone()).ok().flatten()
+}
+
+/// Reports an operation.
+#[inline]
+pub fn point(op: Op, obj: u64) {
+    if let Some(h) = current() {
+        h.point(op, obj);
+    }
+}
+
+/// Registers a new shim object.
+#[inline]
+pub fn new_object(kind: ObjKind) -> u64 {
+    match current() {
+        Some(h) => h.new_object(kind),
+        None => 0,
+    }
+}
+
+// ---------------------------------------------------------------------
+// Mutex
+
+pub struct Mutex<T> {
+    id: u64,
+    inner: sync::Mutex<T>,
+}
+
+pub struct MutexGuard<'a, T> {
+    inner: Option<sync::MutexGuard<'a, T>>,
+    id: u64,
+}
+
+impl<T> Mutex<T> {
+    pub fn new(t: T) -> Self {
+        Self {
+            id: new_object(ObjKind::Mutex),
+            inner: sync::Mutex::new(t),
+        }
+    }
+
+    pub fn id(&self) -> u64 {
+        self.id
+    }
+
+    pub fn lock(&self) -> LockResult<MutexGuard<'_, T>> {
+        let hooks = current();
+        let Some(hooks) = hooks else {
+            return match self.inner.lock() {
+                Ok(g) => Ok(MutexGuard {
+                    inner: Some(g),
+                    id: self.id,
+                }),
+                Err(p) => Err(PoisonError::new(MutexGuard {
+                    inner: Some(p.into_inner()),
+                    id: self.id,
+                })),
+            };
+        };
+        hooks.point(Op::MutexLock, self.id);
+        loop {
+            match self.inner.try_lock() {
+                Ok(g) => {
+                    hooks.mutex_acquired(self.id);
+                    return Ok(MutexGuard {
+                        inner: Some(g),
+                        id: self.id,
+                    });
+                }
+                Err(TryLockError::Poisoned(p)) => {
+                    hooks.mutex_acquired(self.id);
+                    return Err(PoisonError::new(MutexGuard {
+                        inner: Some(p.into_inner()),
+                        id: self.id,
+                    }));
+                }
+                Err(TryLockError::WouldBlock) => hooks.mutex_blocked(self.id),
+            }
+        }
+    }
+
+    /// Never a scheduling point; used by read-only snapshot accessors.
+    pub fn try_lock_silent(&self) -> TryLockResult<sync::MutexGuard<'_, T>> {
+        self.inner.try_lock()
+    }
+
+    pub fn is_poisoned(&self) -> bool {
+        self.inner.is_poisoned()
+    }
+}
+
+impl<T> Deref for MutexGuard<'_, T> {
+    type Target = T;
+    fn deref(&self) -> &T {
+        self.inner.as_ref().unwrap()
+    }
+}
+
+impl<T> DerefMut for MutexGuard<'_, T> {
+    fn deref_mut(&mut self) -> &mut T {
+        self.inner.as_mut().unwrap()
+    }
+}
+
+impl<T> Drop for MutexGuard<'_, T> {
+    fn drop(&mut self) {
+        drop(self.inner.take());
+        if let Some(h) = current() {
+            h.mutex_released(self.id);
+        }
+    }
+}
+
+impl<T: fmt::Debug> fmt::Debug for Mutex<T> {
+    fn fmt(&self, f: &mut fmt::Formatter<'_>) -> fmt::Result {
+        fmt::Debug::fmt(&self.inner, f)
+    }
+}
+
+impl<T: fmt::Debug> fmt::Debug for MutexGuard<'_, T> {
+    fn fmt(&self, f: &mut fmt::Formatter<'_>) -> fmt::Result {
+        fmt::Debug::fmt(&**self, f)
+    }
+}
+
+/// Engine-level waiting for a plain [`std::sync::Mutex`]: reports a
+/// scheduling point and then waits (through the hooks, never by blocking
+/// the OS thread) until `try_lock` no longer reports `WouldBlock`.
+/// A pass-through when no hooks are installed.
+pub fn before_std_lock<T>(m: &sync::Mutex<T>) {
+    let Some(hooks) = current() else { return };
+    let id = m as *const sync::Mutex<T> as *const () as usize as u64;
+    hooks.point(Op::MutexLock, id);
+    while let Err(TryLockError::WouldBlock) = m.try_lock() {
+        hooks.mutex_blocked(id);
+    }
+}
+
+/// Wrapper for an `Arc<std::sync::Mutex<T>>` whose `lock()` goes through
+/// [`before_std_lock`] first.
+pub struct HookedStdMutex<T>(pub sync::Arc<sync::Mutex<T>>);
+
+impl<T> HookedStdMutex<T> {
+    pub fn lock(&self) -> LockResult<sync::MutexGuard<'_, T>> {
+        before_std_lock(&self.0);
+        self.0.lock()
+    }
+}
+
+// ---------------------------------------------------------------------
+// Atomics
+
+macro_rules! atomic_shim {
+    ($name:ident, $int:ty) => {
+        pub struct $name {
+            id: u64,
+            inner: atomic::$name,
+        }
+
+        impl $name {
+            pub fn new(v: $int) -> Self {
+                Self {
+                    id: new_object(ObjKind::Atomic),
+                    inner: atomic::$name::new(v),
+                }
+            }
+            pub fn id(&self) -> u64 {
+                self.id
+            }
+            pub fn fetch_add(&self, v: $int, o: atomic::Ordering) -> $int {
+                point(Op::AtomicRmw, self.id);
+                self.inner.fetch_add(v, o)
+            }
+            pub fn fetch_sub(&self, v: $int, o: atomic::Ordering) -> $int {
+                point(Op::AtomicRmw, self.id);
+                self.inner.fetch_sub(v, o)
+            }
+            pub fn load(&self, o: atomic::Ordering) -> $int {
+                point(Op::AtomicLoad, self.id);
+                self.inner.load(o)
+            }
+            pub fn store(&self, v: $int, o: atomic::Ordering) {
+                point(Op::AtomicRmw, self.id);
+                self.inner.store(v, o)
+            }
+            /// Never a scheduling point; used by snapshot accessors.
+            pub fn load_silent(&self) -> $int {
+                self.inner.load(atomic::Ordering::SeqCst)
+            }
+        }
+
+        impl fmt::Debug for $name {
+            fn fmt(&self, f: &mut fmt::Formatter<'_>) -> fmt::Result {
+                fmt::Debug::fmt(&self.inner, f)
+            }
+        }
+    };
+}
+
+atomic_shim!(AtomicUsize, usize);
+atomic_shim!(AtomicIsize, isize);
+
+// ---------------------------------------------------------------------
+// spawn_blocking seam
+
+/// Result slot shared between an intercepted blocking closure and the
+/// future returned to the caller of `Runtime::spawn_blocking`.
+struct Slot<R> {
+    result: Option<Result<R, Box<dyn Any + Send + 'static>>>,
+    waker: Option<std::task::Waker>,
+}
+
+/// Future returned by [`intercept_spawn_blocking`].
+pub struct BlockingJoin<R> {
+    slot: sync::Arc<sync::Mutex<Slot<R>>>,
+}
+
+impl<R> Future for BlockingJoin<R> {
+    type Output = Result<R, Box<dyn Any + Send + 'static>>;
+    fn poll(
+        self: Pin<&mut Self>,
+        cx: &mut std::task::Context<'_>,
+    ) -> std::task::Poll<Self::Output> {
+        let mut slot = self.slot.lock().unwrap();
+        match slot.result.take() {
+            Some(r) => std::task::Poll::Ready(r),
+            None => {
+                slot.waker = Some(cx.waker().clone());
+                std::task::Poll::Pending
+            }
+        }
+    }
+}
+
+/// Hands `f` to the installed hooks (if any). Returns the closure back
+/// when no hooks are installed.
+pub fn intercept_spawn_blocking<F, R>(f: F) -> Result<BlockingJoin<R>, F>
+where
+    F: FnOnce() -> R + Send + 'static,
+    R: Send + 'static,
+{
+    let Some(hooks) = current() else {
+        return Err(f);
+    };
+    let slot = sync::Arc::new(sync::Mutex::new(Slot {
+        result: None,
+        waker: None,
+    }));
+    let slot2 = slot.clone();
+    hooks.spawn_blocking(Box::new(move || {
+        let r = std::panic::catch_unwind(std::panic::AssertUnwindSafe(f));
+        let waker = {
+            let mut s = slot2.lock().unwrap();
+            s.result = Some(r);
+            s.waker.take()
+        };
+        if let Some(w) = waker {
+            w.wake();
+        }
+    }));
+    Ok(BlockingJoin { slot })
+}
+
+/// Like [`intercept_spawn_blocking`] for fire-and-forget closures.
+pub fn intercept_spawn_blocking_background<F>(f: F) -> Result<(), F>
+where
+    F: FnOnce() + Send + 'static,
+{
+    let Some(hooks) = current() else {
+        return Err(f);
+    };
+    hooks.spawn_blocking(Box::new(move || {
+        let _ = std::panic::catch_unwind(std::panic::AssertUnwindSafe(f));
+    }));
+    Ok(())
+}
